@@ -4,11 +4,31 @@ import vlib, hist, heapcorr
 from props import heapcommon as hc
 
 
-def expected_lists(op, before):
+def py_index(l, i):
+    return l[i] if -len(l) <= i < len(l) else None
+
+
+def expected_lists(op, before, names=None):
     """the ordered-list reference model on the low-level vocabulary: expected child lists after a *successful* op, or None when
     the op is outside what C09 speaks of (traversal children, moves of an already listed child)"""
     lists = [list(n[0]) for n in before]
     k = op[0]
+    if k == 'E':
+        # assignment addressed by name and index: the i-th repetition of that name is replaced in place, else the child is appended
+        p, new, i = op[1], op[2], op[3]
+        old = py_index([c for c in lists[p] if names[c] == names[new]], i)
+        if old is None:
+            told = py_index([c for c in before[p][3] if names[c] == names[new]], i)
+            if told is not None and told != new:
+                return None                   # a pending traversal child is addressed: replaced in the shadow index, then appended
+            return expected_lists(('A', p, new), before)
+        return expected_lists(('X', p, old, new), before)
+    if k == 'D':
+        p, nm, i = op[1], op[2], op[3]
+        c = py_index([c for c in lists[p] if names[c] == nm], i)
+        if c is None:
+            return None
+        return expected_lists(('R', p, c), before)
     if k in ('A', 'S'):
         p, c = op[1], op[2]
         if before[c][2] == p and before[c][1] != p and k == 'A':
@@ -57,7 +77,7 @@ def run(tier, seed):
         for i, op, mop, tag, before, after in hc.steps(r):
             if tag != 'ok' or mop == 'N':
                 continue
-            want = expected_lists(op, before)
+            want = expected_lists(op, before, [n[1] for n in r['history']['nodes']])
             if want is None:
                 continue
             chk.evals += 1
